@@ -1004,8 +1004,13 @@ impl Engine {
         }
         walk(Path::new("."), "", 3, &mut dbat);
         dbat.sort();
+        let dbsize: i64 = dbat
+            .first()
+            .and_then(|p| std::fs::metadata(p).ok())
+            .map(|m| m.len() as i64)
+            .unwrap_or(-1);
         w.ev(json!({"e":"end","exit":exit,"err":err,"errk":errk,"errarg":errarg,"cyc":cyc,
-            "panic":panic,"dead":dead,"summary":summary,"n":n,"warns":warns,"dbat":dbat,"cwd":cwd_rel}));
+            "panic":panic,"dead":dead,"summary":summary,"n":n,"warns":warns,"dbat":dbat,"cwd":cwd_rel,"dbsize":dbsize}));
     }
 
     /// Runs a scenario under every completion order (bounded), calling `sink` per run.
